@@ -49,7 +49,7 @@ def run(tier):
         for p, rc, se in vlib.parallel(cli, sample):
             e2 += 1
             if rc not in (0, 1) or re.search(r"^panic:|^goroutine \d+ \[", se, re.M):
-                m = re.findall(r"\n(github\.com/go-critic/go-critic/checkers\.[^\s(]+)\(", se)
+                m = re.findall(r"\n(github\.com/go-critic/go-critic/[\w/]+\.(?:\(\*?\w+\)\.)?[\w.]+)\(", se)
                 # if the package itself does not load, rc=1 with a load error is fine
                 res.add_violation("cli-panic:" + (m[0] if m else "unknown"), "go-critic check -enableAll %s died: rc=%s" % (p, rc),
                                   {"dir": os.path.join(ws, p), "stderr_tail": se[-3000:]})
